@@ -6,7 +6,7 @@ Stand-alone validator functions for use in voluptuous Schema
 
 
 from collections import defaultdict
-from numbers import Number
+from numbers import Number, Real
 from voluptuous import All, Range, NotIn, Invalid, Schema, Any, Required, Length, truth, Coerce
 from mitxgraders.helpers.get_number_of_args import get_number_of_args
 
@@ -38,7 +38,7 @@ def PercentageString(value):
 
     raise Invalid("Not a valid percentage string")
 
-def number_range_alternate(number_type=Number):
+def number_range_alternate(number_type=Real):
     """
     Validator function that coerces a list [start, stop] into a dictionary
     Uses specific type number_type
@@ -52,7 +52,7 @@ def number_range_alternate(number_type=Number):
         return {'start': config_as_list[0], 'stop': config_as_list[1]}
     return validatorfunc
 
-def NumberRange(number_type=Number):
+def NumberRange(number_type=Real):
     """
     Schema that allows for a start and stop, or alternatively, a list [start, stop]
     The type of number can be restricted by specifying number_type=int, for example
